@@ -12,6 +12,7 @@ import shutil
 import subprocess
 import sys
 import time
+import urllib.parse
 
 import vcommon as V
 
@@ -129,6 +130,71 @@ ENCODINGS = [("UTF-8", "utf-8"), ("UTF-16LE", "utf-16-le"), ("UTF-16BE", "utf-16
 XB_VOCAB = ["q/", "../", "sub/dir/", "a/", "s/", "sub/"]
 
 
+# characters that RFC 2396 allows unescaped in a path segment besides letters and digits (pchar = unreserved | escaped |
+# ":" | "@" | "&" | "=" | "+" | "$" | ","; unreserved = alphanum | mark; mark = - _ . ! ~ * ' ( ))
+PCHAR_EXTRA = "-_.!~*'()@&=+$,:"
+PCT_ESCAPES = ["%20", "%41", "%7E", "%2C", "%3D"]     # (ASCII only: RFC 2396 leaves the charset of other octets open)
+
+
+class Retry(Exception):
+    """the random choices led to a reference that RFC 2396 does not allow (':' in the first segment of a relative path)"""
+
+
+def decorate(rng, seg, allow_pct):
+    """put characters of the pchar alphabet into a file or directory name (before the extension)"""
+    if rng.random() < 0.45:
+        return seg
+    stem, dot, ext = seg.rpartition(".") if "." in seg else (seg, "", "")
+    deco = "".join(rng.choice(PCHAR_EXTRA) for _ in range(rng.randrange(1, 4)))
+    if allow_pct and rng.random() < 0.4:
+        deco += rng.choice(PCT_ESCAPES)
+    if rng.random() < 0.5:
+        deco += rng.choice("xyz07")
+    deco = deco.replace("..", ".")          # no ".." inside a name
+    return stem + deco + dot + ext
+
+
+def big_text(rng, codec, rounds):
+    """text whose encoding fills `rounds` read rounds of 16384 bytes; for UTF-8, multi-byte characters are placed so that
+    they straddle the buffer boundaries (start offsets -3..+3 and inside), several per file, the later boundaries being
+    shifted by the bytes carried over from the earlier splits"""
+    multi = {2: "\u00e9", 3: "\u20ac", 4: "\U0001F600"}
+    filler = "abcdefghij<&>] \u00e9\u4e2d\U0001F601" if codec != "latin-1" else "abcdefghij<&>] \u00e9\u00ff"
+    chars = []
+    nbytes = 0
+    blen = lambda ch: len(ch.encode(codec))
+    boundary = 16384
+    splits = 0
+    for r in range(rounds - 1):
+        L = rng.choice([2, 3, 4])
+        ch = multi[L] if codec == "utf-8" else rng.choice(filler)
+        L = blen(ch)
+        if L > 1 and rng.random() < 0.7:
+            start = boundary - rng.randrange(1, L)          # the character straddles the end of this read round
+        else:
+            start = boundary + rng.randrange(-L - 2, 4)     # ... or sits just before / after it
+        if codec != "utf-8":
+            start -= start % blen("a")
+        while nbytes < start - 12:
+            c0 = rng.choice(filler)
+            chars.append(c0)
+            nbytes += blen(c0)
+        while nbytes < start:
+            chars.append("a")
+            nbytes += blen("a")
+        chars.append(ch)
+        carry = boundary - nbytes if nbytes < boundary < nbytes + L else 0
+        if carry:
+            splits += 1
+        nbytes += L
+        boundary = boundary + 16384 - carry
+    tail = rng.choice([0, 1, 2, 5, 100, 3000, 9000])
+    for _ in range(tail):
+        c0 = rng.choice(filler)
+        chars.append(c0)
+    return "".join(chars), splits
+
+
 class Case:
     """one generated file tree"""
 
@@ -148,13 +214,19 @@ class Case:
         r = self.rng
         return r.choice(["t", "some text", "x<y", "a&b", "\u00e9", " ", "\u4e2d\u6587", "\U0001F600!", "q"])
 
-    def new_text_file(self, dirs):
+    def new_text_file(self, dirs, big=False):
         r = self.rng
-        p = r.choice(dirs) + "t%d.txt" % len(self.texts)
+        p = r.choice(dirs) + decorate(r, "t%d.txt" % len(self.texts), True)
         s = r.choice(TEXT_POOL)
         if r.random() < 0.3:
             s = s + r.choice(TEXT_POOL)
         label, codec = r.choice(ENCODINGS)
+        if big:
+            label, codec = r.choice([ENCODINGS[0]] * 5 + ENCODINGS[1:])
+            rounds = r.choice([1, 2, 2, 3, 3, 3, 4, 4, 5])
+            s, splits = big_text(r, codec, rounds)
+            self.features.add("text-%d-rounds" % rounds)
+            self.features.add("text-%s-%d-split-characters" % (label, splits))
         if codec == "latin-1" and any(ord(c) > 255 for c in s):
             label, codec = "UTF-16BE", "utf-16-be"
         declare = not (codec == "utf-8" and r.random() < 0.5)
@@ -177,6 +249,8 @@ class Case:
             self.xbvals.add(xmlbase)
             self.features.add("include-with-xmlbase")
         attrs.append((0, "href", relref(eff, target)))
+        if ":" in attrs[-1][2].split("/")[0] or (xmlbase and ":" in xmlbase.split("/")[0]):
+            raise Retry()
         if ".." in attrs[-1][2]:
             self.features.add("href-dotdot")
         if parse:
@@ -217,7 +291,7 @@ class Case:
         if r.random() < 0.15:
             attrs.append((ns if ns else 0, "id" if not ns else "w", "v%d" % r.randrange(9)))
         if r.random() < 0.12:
-            xb = r.choice(["q/", "../", "sub/dir/", "a/"])
+            xb = r.choice(["q/", "../", "sub/dir/", "a/", "q,1/", "s'(2)/", "p%20q/", "x@y&z=1+2$3/"])
             if not resolve(base, xb).startswith(".."):
                 attrs.append((2, "base", xb))
                 base = resolve(base, xb)
@@ -251,15 +325,43 @@ class Case:
 
 
 def gen_case(rng, kind):
+    for _ in range(50):
+        try:
+            return gen_case1(rng, kind)
+        except Retry:
+            continue
+    raise RuntimeError("generator: too many retries")
+
+
+def gen_case1(rng, kind):
     c = Case(rng, kind)
-    dirs = ["w/v/" + d for d in rng.choice(DIRSETS)]   # two spare levels: faulty bases (C20-F2) stay inside the case dir
+    plain_dirs = ["w/v/" + d for d in rng.choice(DIRSETS)]   # two spare levels: faulty bases stay inside the case dir
+    top_dir = rng.choice(plain_dirs)
+    # directory names over the pchar alphabet; %XX escapes only outside the path of the top document (the harness hands
+    # that path to the parser as a file name)
+    segmap = {}
+
+    def deco_dir(d):
+        out = []
+        for i, seg in enumerate([x for x in d.split("/") if x]):
+            key = "/".join(d.split("/")[:i + 1])
+            if key not in segmap:
+                segmap[key] = decorate(rng, seg, not (top_dir.startswith(key + "/")))
+                if segmap[key] != seg:
+                    c.features.add("name-with-pchar-specials")
+            out.append(segmap[key])
+        return "/".join(out) + "/" if out else ""
+    dirs = [deco_dir(d) for d in plain_dirs]
+    top_dir = deco_dir(top_dir)
     ndocs = rng.randrange(2, 7)
     paths = []
     for i in range(ndocs):
-        paths.append(rng.choice(dirs) + "f%d.xml" % i)
+        paths.append((top_dir if i == 0 else rng.choice(dirs)) + decorate(rng, "f%d.xml" % i, i > 0))
+    if any("%" in p for p in paths):
+        c.features.add("name-with-percent-escape")
     c.top = paths[0]
-    ntexts = rng.randrange(0, 3) if kind != "text" else rng.randrange(1, 4)
-    tpaths = [c.new_text_file(dirs) for _ in range(ntexts)]
+    ntexts = rng.randrange(0, 3) if kind not in ("text", "bigtext") else rng.randrange(1, 4)
+    tpaths = [c.new_text_file(dirs, big=(kind == "bigtext" and t == 0)) for t in range(ntexts)]
     missing = [rng.choice(dirs) + "nope%d.xml" % i for i in range(2)]
 
     # edges of the inclusion graph
@@ -301,12 +403,12 @@ def gen_case(rng, kind):
             tgt = paths[j]
             xb = None
             if rng.random() < 0.08 and not kind.startswith("cycle"):
-                xb = rng.choice(["a/", "s/", "../", "@target"])
+                xb = rng.choice(["a/", "s/", "../", "@target", "s,2/", "d%20e/"])
                 if xb != "@target" and resolve(me, xb).startswith(".."):
                     xb = None
             gens.append(lambda b, tgt=tgt, xb=xb: c.include(b, tgt, rng.choice([None, None, "xml"]), xmlbase=xb))
         for tp in tpaths:
-            if rng.random() < (0.7 if kind == "text" else 0.3):
+            if rng.random() < (0.7 if kind in ("text", "bigtext") else 0.3):
                 gens.append(lambda b, tp=tp: c.text_include(b, tp))
         if kind in ("missing", "mixed") or rng.random() < 0.1:
             for _ in range(rng.randrange(1, 3)):
@@ -367,7 +469,7 @@ def gen_case(rng, kind):
                 gens.append(lambda b: c.include(b, missing[0], kids=[E(1, "other"), c.fallback([])]))
         rng.shuffle(gens)
         # shape of the document
-        root_inc = (kind == "rootinc" and i <= 1) or rng.random() < 0.06
+        root_inc = (kind == "rootinc" and i <= 1) or rng.random() < 0.12
         if root_inc and gens:
             c.features.add("include-as-document-element" if i == 0 else "include-as-root-of-included-doc")
             root = gens[0](me)
@@ -375,7 +477,7 @@ def gen_case(rng, kind):
             root = c.wrap(me, gens)
             if i > 0 and rng.random() < (0.5 if kind == "rootbase" else 0.05) and root[0] == "E":
                 # the root of an included document carries its own xml:base (finding C20-F2)
-                xb = rng.choice(["q/", "sub/", "../"])
+                xb = rng.choice(["q/", "sub/", "../", "q,(1)/", "s%41b/"])
                 if not any(a[0] == 2 for a in root[3]) and not resolve(me, xb).startswith(".."):
                     c.dirs.add(resolve(me, xb))
                     c.xbvals.add(xb)
@@ -421,15 +523,24 @@ def avoid_f3(nodes):
     return out
 
 
-def fs_token(c):
+ENC_TAG = {"utf-8": "8", "utf-16-le": "l", "utf-16-be": "b", "latin-1": "1"}
+
+
+def fs_token(c, for_spec=False):
+    """the abstract file system for bin/xm_C20 (paths as code points).  Text files: for the Spec the characters as python
+    decodes the whole file (T...), for the model the raw bytes (B<enc>:hex), which it puts through the extracted
+    read/transcode loop of doXIncludeTEXTFileDOM"""
     parts = []
     for p, nodes in c.docs.items():
-        parts.append("%s=D%s" % (p, ser_model(nodes)))
+        parts.append("%s=D%s" % (cps(p), ser_model(nodes)))
     for p, (s, label, codec, declare) in c.texts.items():
-        parts.append("%s=T%s" % (p, cps(s)))
+        if for_spec:
+            parts.append("%s=T%s" % (cps(p), cps(s.encode(codec).decode(codec))))
+        else:
+            parts.append("%s=B%s:%s" % (cps(p), ENC_TAG[codec], s.encode(codec).hex().upper()))
     for p, b in file_bytes(c).items():
         if b is None:
-            parts.append("%s=X" % p)
+            parts.append("%s=X" % cps(p))
     return "|".join(parts)
 
 
@@ -454,7 +565,7 @@ def file_bytes(c):
 
 def materialise(root, files):
     for p, b in files.items():
-        full = os.path.join(root, p)
+        full = os.path.join(root, urllib.parse.unquote(p))          # %XX escapes of the URI name the real character
         os.makedirs(os.path.dirname(full), exist_ok=True)
         if b is None:
             continue
@@ -491,15 +602,15 @@ RE_R = re.compile(r" r=[^ )]*")
 
 def split_answer(a):
     """'E[..] [X:..] D tree' -> (errs list, exc, tree)"""
-    m = re.match(r"^E\[([^\]]*)\]((?: X:\S+)*) D(.*)$", a)
+    m = re.match(r"^E\[([^\]]*)\]((?: X:\S+)*)(?: (Q\[[^\]]*\]))? D(.*)$", a)
     if not m:
         return None
     errs = [e for e in m.group(1).split(",") if e]
-    return errs, m.group(2).strip(), m.group(3)
+    return errs, m.group(2).strip(), m.group(4), m.group(3) or ""
 
 
 def fatal(ans):
-    errs, exc, tree = ans
+    errs, exc, tree = ans[:3]
     return bool(exc) or any(e.endswith("/f") for e in errs)
 
 
@@ -511,6 +622,9 @@ SPEC_CODES = {"Loop": {"CircularInclusionLoop", "CircularInclusionDocIncludesSel
 
 def spec_verdict(spec, ans):
     """does the answer `ans` (split) satisfy the Spec's answer `spec` (text)?  returns (ok, why)"""
+    if len(ans) > 3 and ans[3].startswith("Q[BAD"):
+        # whatever the tree looks like when walked from the document node: the DOM left behind is inconsistent
+        return False, "the resulting DOM is inconsistent or unusable: " + ans[3]
     if spec.startswith("S err"):
         if not fatal(ans):
             return False, "the Spec demands a fatal error (%s), none was reported" % spec[6:]
@@ -558,7 +672,7 @@ def flags_with(toggle):
 
 
 CASE_KINDS = [("plain", 22), ("text", 10), ("missing", 12), ("clean-missing", 6), ("unusedfb", 6), ("invalid", 10),
-              ("rootinc", 6), ("rootbase", 5), ("cycle1", 5), ("cycle2", 5), ("cycle3", 4), ("cycle4", 3),
+              ("rootinc", 16), ("bigtext", 6), ("rootbase", 5), ("cycle1", 5), ("cycle2", 5), ("cycle3", 4), ("cycle4", 3),
               ("cycle5", 3), ("mixed", 3)]
 
 
@@ -582,7 +696,18 @@ def run(ctx):
         ctx.violation("translator", {"what": "translator/c20_switches.py can no longer read the XInclude source",
                                      "error": repr(e)}, no_input=True)
         return
-    ok, out, failed = ctx.prove(["Base", "C20"],
+    # Text20.v builds on C05's transcoder models, whose tables are regenerated from /repo
+    try:
+        import tables as T05
+        T05.gen_utf8()
+        T05.gen_tables()
+        import c20_uritables as UT
+        UT.generate(V.REPO)
+    except Exception as e:
+        ctx.violation("translator", {"what": "translator can no longer read the transcoder / URI tables", "error": repr(e)},
+                      no_input=True)
+        return
+    ok, out, failed = ctx.prove(["Base", "Gen", "C05", "C20"],
                                 ["theories/C20/Properties_C20.vo", "theories/C20/Extract_C20.vo"],
                                 props_file="theories/C20/Properties_C20.v")
     proof_broken = not ok
@@ -630,7 +755,7 @@ def literal_witnesses(ctx, xm, xh, work):
             line = "%s %s:%s p %s %s %s" % (name, m, CURRENT, root, top, tok)
             prc, io, _ = run_harness(ctx, xh, [line])
             _, mo, _ = run_bin(xm, [line])
-            _, so, _ = run_bin(xm, ["%s s p - %s %s" % (name, top, tok)])
+            _, so, _ = run_bin(xm, ["%s s p - %s %s" % (name, top, fs_token(c, True))])
             res.append((m, prc, io[0] if io else None, mo[0], so[0], files, tok))
             ctx.count()
         return res
@@ -657,6 +782,18 @@ def literal_witnesses(ctx, xm, xh, work):
         elif i != mo:
             ctx.violation("divergence", pay(m, "w/f0.xml", tok, files, {"impl": i, "model": mo, "spec": sp,
                           "what": "witness of C20-F3 neither crashes nor gives the specified result"}))
+    # C20-F6, several rounds: characters split by the first and by the second read, 4 rounds (the carried-over bytes of
+    # one round must not be prepended again in the next one)
+    txt4 = "a" * 16383 + "\u00e9" + "b" * (32767 - 16385 - 2) + "\u20ac" + "c" * 20000 + "\U0001F600" + "d" * 5
+    docs = {"w/f0.xml": [E(0, "a", [], [E(1, "include", [(0, "href", "big4.txt"), (0, "parse", "text")], [])])]}
+    for m, rc, i, mo, sp, files, tok in one("wF6r", docs, {"w/big4.txt": (txt4, "UTF-8", "utf-8", False)}, "w/f0.xml",
+                                            ["x", "l", "d"]):
+        ia = split_answer(i) if i else None
+        if i != mo or ia is None or not spec_verdict(sp, ia)[0]:
+            ctx.violation("divergence", pay(m, "w/f0.xml", tok, files, {"impl": (i or "")[:300] + " ... " + (i or "")[-200:],
+                          "model": mo[:100] + " ... " + mo[-200:], "spec": sp[-200:],
+                          "what": "text inclusion over four read rounds with characters split by two of them differs "
+                          "from the decoding of the whole file"}))
     # C20-F6: text inclusion whose UTF-8 bytes straddle the 16384-byte read buffer
     txt = "a" * 16383 + "\u00e9" + "bcd"
     docs = {"w/f0.xml": [E(0, "a", [], [E(1, "include", [(0, "href", "big.txt"), (0, "parse", "text")], [])])]}
@@ -693,7 +830,7 @@ def _correspond(ctx, xm, xh, work, acc, chunk):
         r = json.load(open(ctx.replay))
         files = {p: (None if h is None else bytes.fromhex(h)) for p, h in r["files"].items()}
         cases.append((r.get("kind", "replay"), "c0/", r["top"], r["fs"], files, set(r.get("features", [])),
-                      r.get("relaxed", False)))
+                      r.get("fs_spec", r["fs"])))
         modes = [r.get("mode", "x")]
     else:
         n = 400
@@ -706,12 +843,12 @@ def _correspond(ctx, xm, xh, work, acc, chunk):
                 c = Case(rng, wk)
                 c.docs = wdocs
                 c.top = "w/f0.xml"
-                cases.append((wk, "w%d/" % len(cases), c.top, fs_token(c), file_bytes(c), {wk}, False))
+                cases.append((wk, "w%d/" % len(cases), c.top, fs_token(c), file_bytes(c), {wk}, fs_token(c, True)))
         kinds = [k for k, w in CASE_KINDS for _ in range(w)]
         for i in range(n):
             kind = kinds[i % len(kinds)] if i < 2 * len(kinds) else rng.choice(kinds)
             c = gen_case(rng, kind)
-            cases.append((kind, "c%d/" % i, c.top, fs_token(c), file_bytes(c), c.features, c.dotdot_cycle))
+            cases.append((kind, "c%d/" % i, c.top, fs_token(c), file_bytes(c), c.features, fs_token(c, True)))
         modes = ["x", "l", "d"]
     reqs = []
     tW = time.time()
@@ -721,6 +858,10 @@ def _correspond(ctx, xm, xh, work, acc, chunk):
         materialise(root, files)
         for m in modes:
             src = "pu"[(k + len(m)) % 2] if not ctx.replay else "p"
+            if any(":" in fp for fp in files):
+                # a plain file name with ':' is not a URI reference (XMLUri takes what precedes the colon for a scheme);
+                # such trees are only handed over as file: URLs
+                src = "u"
             reqs.append((k, m, "c%d %s:%s %s %s %s %s" % (k, m, CURRENT, src, root, top, fstok)))
     lines = [r[2] for r in reqs]
     tA = time.time()
@@ -741,12 +882,12 @@ def _correspond(ctx, xm, xh, work, acc, chunk):
         ctx.violation("model-crash", {"what": "model driver crashed", "stderr": err2[-2000:]}, no_input=True)
         return
     # the Spec and the switched models on every case (cheap)
-    spec_lines = ["c%d s p - %s %s" % (k, c[2], c[3]) for k, c in enumerate(cases)]
+    spec_lines = ["c%d s p - %s %s" % (k, c[2], c[6]) for k, c in enumerate(cases)]
     rc3, spec, err3 = run_bin(xm, spec_lines)
     # the model with one defect switch flipped (X, DD: repaired xml:base fix-up; d, DD: no eager processing) -- computed
     # on demand, only for the cases that need an attribution
     # how many of the cases satisfy the decidable hypotheses of T20_expansion_parser (Hyps20.under_theorem)
-    _, hyp, _ = run_bin(xm, ["c%d h p - %s %s" % (k, c[2], c[3]) for k, c in enumerate(cases)])
+    _, hyp, _ = run_bin(xm, ["c%d h p - %s %s" % (k, c[2], c[6]) for k, c in enumerate(cases)])
     hc = acc.setdefault("under_theorem", {"cases": 0, "under_T20_expansion_parser": 0, "clean_fs": 0, "clean_doc": 0})
     hc["cases"] += len(cases)
     hc["under_T20_expansion_parser"] += sum(1 for h in hyp if "under_theorem=true" in h)
@@ -756,6 +897,7 @@ def _correspond(ctx, xm, xh, work, acc, chunk):
     # the model with switches toggled, for every case on which the model or the implementation deviates from the Spec
     need = sorted({(k, m) for (k, m, line), i, mo in zip(reqs, impl, model)
                    if i != mo or split_answer(i) is None or not spec_verdict(spec[k], split_answer(i))[0]})
+    need = need[:40]          # (an attribution is only attempted for the first deviating requests)
     batch = [(k, m, t) for (k, m) in need for t in toggles(m)]
     if batch:
         _, o4, _ = run_bin(xm, ["c%d %s:%s p - %s %s" % (k, "d" if m == "d" else "x", flags_with(t), cases[k][2],
@@ -832,7 +974,7 @@ def _correspond(ctx, xm, xh, work, acc, chunk):
     def payload(k, m, extra):
         kind, cdir, top, fstok, files, feats, relaxed = cases[k]
         d = {"request": "c0 %s p <work>/c0/ %s <fs>" % (m, top), "mode": m, "top": top, "fs": fstok, "kind": kind,
-             "features": sorted(feats), "relaxed": relaxed, "files": {p: (None if b is None else b.hex()) for p, b in files.items()}}
+             "features": sorted(feats), "fs_spec": relaxed, "files": {p: (None if b is None else b.hex()) for p, b in files.items()}}
         d.update(extra)
         return d
 
